@@ -1535,3 +1535,100 @@ Proof.
   intros H Hin. destruct (run_In _ _ _ _ H Hin) as (a & b & s1 & s2 & _ & _ & Hs & _).
   simpl in Hs. discriminate.
 Qed.
+
+(* (5) shutdown(wait=False) has run a cancel task for EVERY registered job when it returns; hence
+   the only way a process can run after its return is the F6 window: the process was spawned
+   after the cancel task of its job had run *)
+
+Lemma run_snoc st sched l st' :
+  run st (sched ++ [l]) = Some st' -> exists st0, run st sched = Some st0 /\ step st0 l = Some st'.
+Proof.
+  rewrite run_app. destruct (run st sched) as [st0|]; try discriminate. simpl.
+  destruct (step st0 l) eqn:E; try discriminate. intros H; inversion H; subst. eauto.
+Qed.
+
+Lemma running_spawned tmos waits sched : forall st j,
+  run (init tmos waits) sched = Some st -> running st j = true -> In (LPopen j true) sched.
+Proof.
+  induction sched as [|l sched IH] using rev_ind; intros st j H Hr.
+  - simpl in H. inversion H; subst. unfold running, init in Hr. simpl in Hr.
+    destruct (nth_error (map init_job tmos) j) eqn:E; try discriminate.
+    apply nth_error_In, in_map_iff in E. destruct E as (x & <- & _). discriminate.
+  - destruct (run_snoc _ _ _ _ H) as (st0 & H0 & Hs). apply in_or_app.
+    destruct (running st0 j) eqn:Hr0; [left; eauto|]. right.
+    unfold running in Hr, Hr0. destruct (nth_error (jobs st) j) as [jb'|] eqn:Hn; try discriminate.
+    destruct (step_job_at _ _ _ _ _ Hs Hn) as [(Ho & _) | (Hje & jb & Ho & Ht)].
+    + rewrite Ho in Hr0. congruence.
+    + rewrite Ho in Hr0. clear - Hje Ht Hr Hr0.
+      destruct jb as [t s w p e o n]; unfold kill in Ht; destruct l; simpl in *; try contradiction;
+        inversion Hje; subst;
+        try (destruct ok);
+        repeat match goal with H : _ /\ _ |- _ => destruct H end; subst; simpl in *;
+        try (destruct p; simpl in * ); try discriminate; auto.
+Qed.
+
+Lemma every_registered_cancelled tmos waits k sched : forall st s,
+  run (init tmos waits) sched = Some st -> nth_error (sds st) k = Some s -> swait s = false ->
+  match dpc s with
+  | DCancel pend => forall j, In j (reg st) -> In j pend \/ In (LSdCancel k j) sched
+  | DDone => forall j, In j (reg st) -> In (LSdCancel k j) sched
+  | _ => True
+  end.
+Proof.
+  induction sched as [|l sched IH] using rev_ind; intros st s H Hn Hw.
+  - simpl in H. inversion H; subst. simpl in Hn.
+    apply nth_error_In, in_map_iff in Hn. destruct Hn as (x & <- & _). exact I.
+  - destruct (run_snoc _ _ _ _ H) as (st0 & H0 & Hs).
+    assert (I0 : inv st0) by (eapply run_inv; [apply init_inv|eauto]). destruct I0 as (G0 & S0).
+    destruct (step_sd_at _ _ _ _ _ Hs Hn) as [(Ho & _) | (Hke & s0 & Ho & (Hsw & Ht))].
+    + specialize (IH _ _ H0 Ho Hw).
+      destruct (dpc s) eqn:Ed; auto.
+      all: assert (C : closed st0) by (exists k, s; rewrite Ed; auto);
+           rewrite (reg_same_if_closed _ _ _ S0 C Hs); intros j Hin; specialize (IH j Hin).
+      * destruct IH; auto. right. apply in_or_app; auto.
+      * apply in_or_app; auto.
+    + rewrite Hsw in Hw. specialize (IH _ _ H0 Ho Hw).
+      pose proof (s_sdok _ S0 _ _ Ho) as Hok. unfold sd_ok in Hok.
+      pose proof (step_globals _ _ _ Hs) as (HR & _).
+      destruct l; try contradiction; simpl in HR.
+      * destruct Ht as (_ & ->). exact I.
+      * destruct Ht as (_ & ->). rewrite Hw. rewrite HR. intros j Hin. auto.
+      * destruct Ht as (pend & pend' & Hd & Hrm & ->). rewrite Hd in IH. rewrite HR.
+        simpl in Hke. inversion Hke; subst k0.
+        intros j0 Hin. destruct (IH j0 Hin) as [Hp | Hc].
+        -- destruct (Nat.eq_dec j0 j) as [->|Hne].
+           ++ right. apply in_or_app. right. simpl; auto.
+           ++ left. eapply remove1_other; eauto.
+        -- right. apply in_or_app; auto.
+      * destruct Ht as (_ & ->). exact I.
+      * destruct Ht as (pend & _ & ->). exact I.
+      * destruct Ht as (j0 & rest & _ & _ & ->). exact I.
+      * destruct Ht as ([Hd|Hd] & ->); rewrite Hd in IH, Hok.
+        -- rewrite HR. intros j Hin. destruct (IH j Hin) as [[]|Hc]. apply in_or_app; auto.
+        -- congruence.
+Qed.
+
+Lemma nowait_only_late_spawn tmos waits sched st k j :
+  run (init tmos waits) sched = Some st -> nth_error waits k = Some false ->
+  returned st k = true -> running st j = true ->
+  exists pre mid post, sched = pre ++ LSdCancel k j :: mid ++ LPopen j true :: post.
+Proof.
+  intros H Hw Hr Hrun.
+  assert (I : inv st) by (eapply run_inv; [apply init_inv|eauto]).
+  unfold returned in Hr. destruct (nth_error (sds st) k) as [s|] eqn:Hn; try discriminate.
+  destruct (dpc s) eqn:Hd; try discriminate.
+  pose proof (swait_of _ _ _ _ _ _ H Hn) as Hw'. rewrite Hw in Hw'. inversion Hw' as [Hsw].
+  pose proof (every_registered_cancelled _ _ _ _ _ _ H Hn (eq_sym Hsw)) as Hc. rewrite Hd in Hc.
+  assert (Hreg : In j (reg st)).
+  { unfold running in Hrun. destruct (nth_error (jobs st) j) as [jb|] eqn:Hjb; try discriminate.
+    apply (job_running_registered st j jb I Hjb).
+    destruct I as (G & _). pose proof (Forall_nth _ _ _ _ (g_jobs _ G) Hjb) as Hok. unfold job_ok in Hok.
+    intros Hwn. rewrite Hwn in Hok. destruct Hok as (Hp & _). rewrite Hp in Hrun. discriminate. }
+  specialize (Hc j Hreg). apply in_split in Hc. destruct Hc as (pre & rest & ->).
+  pose proof (running_spawned _ _ _ _ _ H Hrun) as Hp.
+  apply in_app_or in Hp. destruct Hp as [Hp | [Hp | Hp]]; try discriminate.
+  - exfalso. assert (Hk : running st j = false).
+    { eapply cancel_kills; eauto. exists pre, rest, k. auto. }
+    congruence.
+  - apply in_split in Hp. destruct Hp as (mid & post & ->). exists pre, mid, post. reflexivity.
+Qed.
